@@ -15,6 +15,10 @@ def main():
         res = m.get("check_results", {})
         caught = sorted(k for k, v in res.items() if v["exit"] == 1)
         missed = sorted(k for k, v in res.items() if v["exit"] == 0)
+        if m.get("obsolete"):
+            name += " (obsolete)"
+        if m.get("language_level_only"):
+            name += " (language level only)"
         rows.append((name, m.get("breaks_property", "?"), m.get("needs_to_manifest", "")[:160].replace("|", "/"),
                      ", ".join(caught) or "-", ", ".join(missed) or "-"))
     print("| seeded change | breaks | needs to manifest | caught by (quick) | run but silent |")
